@@ -11,6 +11,7 @@ import Cerberus.Model.Validate
 import Cerberus.Model.Normalize
 import Cerberus.Model.Api
 import Cerberus.Extracted
+import Cerberus.Model.RefTables
 open Lean Cerberus Cerberus.Codec
 
 namespace Drv
@@ -206,7 +207,9 @@ def portValidate0 (j : Json) : Except String Json := do
   let upd := (j.getObjVal? "update").toOption.bind (·.getBool?.toOption) |>.getD false
   let fuel := (j.getObjVal? "fuel").toOption.bind (·.getNat?.toOption) |>.getD 40
   let ctx : Ctx := { cfg := cfg }
-  pure (outcomeToJson (validate0 env Extracted.tables fuel ctx schema doc upd))
+  let useRef := (j.getObjVal? "ref").toOption.bind (·.getBool?.toOption) |>.getD false
+  let t := if useRef then refTables else Extracted.tables
+  pure (outcomeToJson (validate0 env t fuel ctx schema doc upd))
 
 def docOutcomeToJson (r : M (List (Key × Val) × List Err)) : Json :=
   match r with
